@@ -421,6 +421,14 @@ pub fn check_edges3(w: &[u64], t: &mut Tally) -> Result<(), Fail> {
                 let rhs = $M4::from(ga) * $M4::from(gb);
                 logic::entries_within::<4>(cx!(t, $an), "affine3/compose", "Mat4::from(a * b)", &O3::raw(&lhs.into()), &prod, &tol, &ctx)?;
                 logic::entries_within::<4>(cx!(t, $an), "affine3/compose", "Mat4::from(a) * Mat4::from(b)", &O3::raw(&rhs.into()), &prod, &tol, &ctx)?;
+                // the mixed-type operators are the same composition with one side converted
+                let mixed1: $M4 = $M4::from(ga) * gb;
+                let mixed2: $M4 = ga * $M4::from(gb);
+                logic::entries_within::<4>(cx!(t, $an), "affine3/compose", "Mat4::from(a) * b (Mul<Affine> for Mat4)", &O3::raw(&mixed1.into()), &prod, &tol, &ctx)?;
+                logic::entries_within::<4>(cx!(t, $an), "affine3/compose", "a * Mat4::from(b) (Mul<Mat4> for Affine)", &O3::raw(&mixed2.into()), &prod, &tol, &ctx)?;
+                let mut acc = ga;
+                acc *= gb;
+                logic::entries_within::<4>(cx!(t, $an), "affine3/compose", "a *= b", &O3::raw(&$M4::from(acc).into()), &prod, &tol, &ctx)?;
                 // inverse: entries of the linear block to K u kappa(L) |L^-1|, of the translation to the same times |t|
                 let mut lin = ra.m;
                 for i in 0..3 {
@@ -726,6 +734,13 @@ pub fn check_edges2(w: &[u64], t: &mut Tally) -> Result<(), Fail> {
                 let rhs = $M3::from(ga) * $M3::from(gb);
                 logic::entries_within::<3>(cx!(t, $an), "affine2/compose", concat!($mn, "::from(a * b)"), &O2::raw(&lhs.into()), &prod, &tol, &ctx)?;
                 logic::entries_within::<3>(cx!(t, $an), "affine2/compose", concat!($mn, "::from(a) * ", $mn, "::from(b)"), &O2::raw(&rhs.into()), &prod, &tol, &ctx)?;
+                let mixed1: $M3 = $M3::from(ga) * gb;
+                let mixed2: $M3 = ga * $M3::from(gb);
+                logic::entries_within::<3>(cx!(t, $an), "affine2/compose", concat!($mn, "::from(a) * b (Mul<Affine2> for ", $mn, ")"), &O2::raw(&mixed1.into()), &prod, &tol, &ctx)?;
+                logic::entries_within::<3>(cx!(t, $an), "affine2/compose", concat!("a * ", $mn, "::from(b) (Mul<", $mn, "> for Affine2)"), &O2::raw(&mixed2.into()), &prod, &tol, &ctx)?;
+                let mut acc = ga;
+                acc *= gb;
+                logic::entries_within::<3>(cx!(t, $an), "affine2/compose", "a *= b", &O2::raw(&$M3::from(acc).into()), &prod, &tol, &ctx)?;
                 let mut lin = ra.m;
                 for i in 0..2 {
                     lin.0[2][i] = Q::zero();
